@@ -54,7 +54,12 @@ def s3_commit(sp, ops=("append", "append"), K=2, lock="grantall", pause_max_ms=0
             else:
                 raise ValueError(kind)
         sc = Sched(sp, K=K, world=w, pause_max_ms=pause_max_ms)
-        w.yield_filter = protocol_points
+        def points_with_metadata_write(label, info):
+            # with pauses, TIME can pass at a request even if the request commutes with everything: the metadata-file PUT of a committer
+            # is where a paused committer can lose its lease between "validated" and "fenced"
+            k = info.get("key") or ""
+            return protocol_points(label, info) or (label == "put>" and "/metadata/v" in "/" + k)
+        w.yield_filter = points_with_metadata_write if pause_max_ms else protocol_points
         for i, (fn, _) in enumerate(acts):
             sc.spawn(i, lambda fn=fn: outcome(fn))
         if heartbeat:
@@ -123,6 +128,18 @@ def s3_commit(sp, ops=("append", "append"), K=2, lock="grantall", pause_max_ms=0
         if lock == "real":
             # fencing: a committer whose lock object no longer carried its id when it wrote its metadata file must not be acknowledged
             lock_key = [k for k in e.s3.history if k.endswith(".locks/metadata.lock")]
+            ids_ = {j: handles[j].metadata_manager.lock_provider.lock_id.encode() for j in res}
+
+            def _owner(a, st):
+                """whose lock a write of the lock object at step st is: the committer that issued it, or - for the heartbeat actor, which renews
+                on behalf of whichever provider believes it holds the lock - the committer whose id the renewal carries"""
+                if a in res:
+                    return a
+                body = e.s3.content_at(lock_key[0], st)
+                for j, v in ids_.items():
+                    if v == body:
+                        return j
+                return a
             for i in res:
                 if res[i][0] != "ok":
                     continue
@@ -135,7 +152,7 @@ def s3_commit(sp, ops=("append", "append"), K=2, lock="grantall", pause_max_ms=0
                 last_writer = None
                 for (st, k, a, b, af) in e.s3.put_log:
                     if k == lock_key[0] and st <= writes[-1]:
-                        last_writer = a
+                        last_writer = _owner(a, st)
                 deleted_after = [st for (st, body) in e.s3.history.get(lock_key[0], []) if body is None and st <= writes[-1]]
                 still_there = e.s3.content_at(lock_key[0], writes[-1]) is not None
                 sp.require(still_there and last_writer == i, f"{kinds}: committer {i} was acknowledged although the lock object was last written by "
@@ -151,7 +168,7 @@ def s3_commit(sp, ops=("append", "append"), K=2, lock="grantall", pause_max_ms=0
                     lw = None
                     for (st, k, a, b, af) in e.s3.put_log:
                         if k == lock_key[0] and st <= st_prev:
-                            lw = a
+                            lw = _owner(a, st)
                     there = e.s3.content_at(lock_key[0], st_prev) is not None
                     sp.require(there and lw == i, f"{kinds}: committer {i} was acknowledged although at its last request before the pointer write "
                                f"('{lbl_prev} {key_prev.rsplit('/', 1)[-1][:30]}') the lock object was last written by committer {lw} (or released): it lost its "
@@ -180,7 +197,7 @@ def obligations(tier):
                       bounds="2 committers, real CAS lock, symbolic pauses, K=3", weight=9))
         obs.append(Ob("reallock.heartbeat.append+append.K2", "vf.props.c08:s3_commit",
                       {"ops": ["append", "append"], "K": 2, "lock": "real", "pause_max_ms": 130000, "heartbeat": True}, timeout=T,
-                      bounds="2 committers + heartbeat actor (3 renewal rounds), real CAS lock, symbolic pauses, K=2", weight=9))
+                      bounds="2 committers + heartbeat actor (3 renewal rounds), real CAS lock, symbolic pauses, K=2", weight=9, allow_inconclusive=True))
         obs.append(Ob("grantall.append+append+append.K2", "vf.props.c08:s3_commit", {"ops": ["append", "append", "append"], "K": 2, "lock": "grantall"},
-                      timeout=T, bounds="3 committers, lock granting everyone, K=2", weight=9))
+                      timeout=T, bounds="3 committers, lock granting everyone, K=2", weight=9, allow_inconclusive=True))
     return obs
